@@ -338,7 +338,7 @@ fn history__decaps_agrees_with_chain_model_len3() {
     println!("VERIF-COUNT history__decaps_agrees_with_chain_model_len3 {n}");
 }
 
-// @obl props=C03,C04,C05,C06,C09 tier=quick fn=api::Covercrypt::refresh_usk shape="14 hand-picked histories of 3 to 5 operations (double rekey then prune then refresh, delete then add then refresh, disable then rekey, ...), chain model, real cryptography"
+// @obl props=C03,C04,C05,C06,C09 tier=quick fn=api::Covercrypt::refresh_usk shape="17 hand-picked histories of 3 to 6 operations (double rekey then prune then refresh, delete then add then refresh, disable then rekey, ...), chain model, real cryptography"
 #[test]
 fn history__targeted_long_sequences() {
     use Op::*;
@@ -348,6 +348,9 @@ fn history__targeted_long_sequences() {
         &[Rekey("SEC::LOW && DPT::FIN"), Refresh(0, true), Rekey("SEC::TOP"), Refresh(0, true)],
         &[Rekey("SEC::LOW && DPT::FIN"), Rekey("SEC::TOP"), Refresh(0, true), Prune("SEC::TOP"), Refresh(0, true)],
         &[Disable("DPT", "FIN"), Rekey("DPT::FIN"), Refresh(0, true), Roundtrip],
+        &[Rekey("DPT::FIN"), Disable("DPT", "FIN"), Rekey("DPT::FIN"), Roundtrip, Prune("DPT::FIN")],
+        &[Rekey("SEC::LOW && DPT::FIN"), Rekey("DPT::FIN"), Refresh(0, true), Refresh(0, true), Rekey("DPT::FIN"), Refresh(0, true)],
+        &[Delete("DPT", "FIN"), AddAttr("DPT", "NEW"), Refresh(0, true), Refresh(1, false)],
         &[Disable("DPT", "FIN"), Prune("DPT::FIN"), Rekey("SEC::TOP"), Refresh(1, false)],
         &[Delete("DPT", "FIN"), AddAttr("DPT", "NEW"), Refresh(0, true), Refresh(1, true)],
         &[AddAttr("DPT", "NEW"), Keygen("SEC::TOP && DPT::FIN"), Rekey("DPT::FIN"), Refresh(2, true)],
@@ -873,7 +876,7 @@ fn cc_rights(u: &str) -> BTreeSet<Vec<u8>> {
     rights_of(&msk.access_structure, u, true)
 }
 
-// @obl props=C08,C10 tier=quick fn=core::primitives::refresh shape="issued keys (1-2 rights, 1-2 revisions, classic and hybridized): rights removed / duplicated / reordered / renamed, secrets moved between rights and chains, flavour changed, id altered, signature stripped / altered, key of another master key, splice of two keys"
+// @obl props=C08,C09,C10 tier=quick fn=core::primitives::refresh shape="issued keys (1-2 rights, 1-2 revisions, classic and hybridized): rights removed / duplicated / reordered / renamed, secrets moved between rights and chains, flavour changed, id altered, signature stripped / altered, key of another master key, splice of two keys"
 #[test]
 fn signature__structural_tampering_is_rejected() {
     let cc = Covercrypt::default();
@@ -922,7 +925,7 @@ fn signature__structural_tampering_is_rejected() {
         for keep in [true, false] {
             let before = (m.serialize().unwrap().to_vec(), msk.serialize().unwrap().to_vec());
             let r = cc.refresh_usk(&mut msk, m, keep);
-            assert!(r.is_err(), "C08: a user key with {name} is accepted for refresh (keep = {keep})");
+            assert!(r.is_err(), "C08/C09: a user key with {name} is accepted for refresh (keep = {keep})");
             assert!((m.serialize().unwrap().to_vec(), msk.serialize().unwrap().to_vec()) == before, "C08/C10: a refused refresh ({name}) modified the user key or the master key");
             n += 1;
         }
